@@ -217,3 +217,92 @@ contract(
     note="offsets[oi] = replica mean - central value, so the number written is sample - central value; the format reserves the number 0 "
          "for `not measured`",
 )
+
+
+# ---------------------------------------------------------------------------------------------------
+# import_dobs_string, covariance inputs: observable i gets column i of the stored gradient table (or the single column)
+
+from pyvc.lib_mat import SMat, SRow  # noqa: E402
+
+COVOBS = "pyerrors/covobs.py"
+
+_COVOBS_STUB = contract(
+    COVOBS + "::Covobs.__init__", props=[], assumed=True, register=False, name=COVOBS + "::Covobs.__init__[arguments recorded]",
+    params=dict(self=Custom(lambda n, c, s: None), mean=Custom(lambda n, c, s: None), cov=Custom(lambda n, c, s: None),
+                name=Custom(lambda n, c, s: None), pos=Custom(lambda n, c, s: None), grad=Custom(lambda n, c, s: None)),
+    result=lambda a, ctx: SObj("Covobs", {"_cov_arg": a.cov, "_grad_arg": a.grad, "name": a.name}),
+    note="the constructor is a stub that records the covariance and gradient it is given (its validation is a C04 contract)",
+)
+
+
+def _cdata_slice(mod, fnode):
+    first = second = None
+    for node in ast.walk(fnode):
+        if isinstance(node, ast.If) and "grad" in ast.dump(node.test) and "shape" in ast.dump(node.test) and first is None:
+            first = node
+        if isinstance(node, ast.Assign) and isinstance(node.targets[0], ast.Name) and node.targets[0].id == "new_covobs" and second is None:
+            second = node
+    if first is None or second is None:
+        from pyvc.sym import CheckerError
+        raise CheckerError("contract no longer binds: gradient handling of covariance inputs not found in import_dobs_string")
+    return [first, second]
+
+
+def _mk_grad(cols):
+    def make(name, ctx, shape):
+        m = SMat.fresh(name)
+        m.cols = cols
+        ctx.assume(m.rows >= 1)
+        return m
+    return make
+
+
+def _cdata_gen(rng, case):
+    import numpy as np
+    nobs = 2 if case["mean"] == "two" else 3
+    cols = {"single": 1, "two": 2, "three": 3}[case["grad"]]
+    ncov = rng.choice([nobs, nobs, 1, 2, 4])          # the square case (as many covariance entries as observables) included
+    r = np.random.default_rng(rng.randint(0, 10 ** 6))
+    grad = r.normal(size=(ncov, cols))
+    from pyvc.native import repo_module
+    return dict(grad=grad, mean=[1.0, 2.0, 3.0][:nobs], cname="c", gradd={}, covd={"c": np.eye(ncov)}, cnames=["c"], i=int(case["i"][1:]))
+
+
+def _cdata_post(a, r):
+    if not isinstance(a.grad, SMat):
+        import numpy as np
+        col = 0 if a.grad.shape[1] == 1 else a.i
+        got = np.asarray(r.new_covobs["c"].grad, dtype=float).reshape(-1)
+        return {"observable i gets d(obs_i)/d(cov entry k) = table[k][i] (single column: shared by all observables)":
+                bool(got.shape == (a.grad.shape[0],) and np.allclose(got, a.grad[:, col]))}
+    co = r.new_covobs.d["c"]
+    g = co.attrs["_grad_arg"]
+    grad = a.grad
+    n = grad.rows
+    i = a.i
+    col = 0 if grad.cols == 1 else i
+    if isinstance(g, SMat):
+        ok = And(g.rows == n, ForAll(0, n, lambda k: eq(g.get(k, 0), grad.get(k, col))))
+    elif isinstance(g, SRow):
+        ok = And(g.mat.cols == n, ForAll(0, n, lambda k: eq(g.mat.get(g.i, k), grad.get(k, col))))
+    else:
+        ok = False
+    return {"observable i gets d(obs_i)/d(cov entry k) = table[k][i] (single column: shared by all observables)": ok}
+
+
+contract(
+    REL + "::import_dobs_string", name=REL + "::import_dobs_string[gradients of covariance inputs]", props=["C12"],
+    slice=_cdata_slice, overrides={COVOBS + "::Covobs.__init__": _COVOBS_STUB},
+    params=dict(grad=OneOf(single=Custom(_mk_grad(1)), two=Custom(_mk_grad(2)), three=Custom(_mk_grad(3))),
+                mean=OneOf(two=Const(CList([Fraction(1), Fraction(2)], "list")), three=Const(CList([Fraction(1), Fraction(2), Fraction(3)], "list"))),
+                cname=Const("c"), gradd=Custom(lambda n, c, s: CDict()), covd=Custom(lambda n, c, s: CDict({"c": SOpaque("covmatrix")})),
+                cnames=Const(CList(["c"], "list")), i=OneOf(i0=Const(0), i1=Const(1), i2=Const(2))),
+    cases_filter=lambda case: (case["grad"] == "single" or case["grad"] == case["mean"]) and int(case["i"][1:]) < (2 if case["mean"] == "two" else 3),
+    writes=("gradd",),
+    ensures=_cdata_post,
+    native_slice=True, gen=_cdata_gen, crosscheck=False, refute=False,
+    slice_note="the `if grad.shape[1] == 1 ... else ...` statement of the cdata branch followed by the statement that builds the Covobs objects "
+               "of observable i; live-in variables grad (symbolic number of covariance entries; 1, 2 or 3 observables), mean, cname, gradd, "
+               "covd, cnames, i",
+    bounded="2 or 3 observables per file (the list of observables is concrete); the number of covariance entries is symbolic",
+)
